@@ -407,7 +407,11 @@ impl<'a> Minimiser<'a> {
             return false;
         }
         self.attempts += 1;
-        match check_isolated(self.prop, c, 30.0) {
+        // while shrinking a hang, a candidate that needs more than a few seconds alone in a fresh
+        // process (ordinary runs take milliseconds) counts as still hanging; the final result is
+        // confirmed with the long timeout afterwards
+        let to = if self.rule.starts_with("hang:") { 4.0 } else { 30.0 };
+        match check_isolated(self.prop, c, to) {
             Some(v) => v.rule == self.rule,
             None => false,
         }
@@ -934,7 +938,8 @@ pub fn run_main(a: &RunArgs) -> i32 {
             continue;
         }
         // confirm in a fresh process first
-        let confirmed = check_isolated(&a.prop, case, 60.0);
+        let iso_to = if v.rule.starts_with("hang:") { 20.0 } else { 60.0 };
+        let confirmed = check_isolated(&a.prop, case, iso_to);
         let (v, case) = match confirmed {
             Some(v2) if v2.rule == v.rule => (v2, case.clone()),
             other => {
@@ -951,7 +956,7 @@ pub fn run_main(a: &RunArgs) -> i32 {
         };
         let mut m = Minimiser { prop: &a.prop, rule: v.rule.clone(), deadline: Instant::now() + Duration::from_secs_f64(min_budget), attempts: 0, max_attempts: 3000 };
         let small = m.minimise(&case);
-        let final_v = check_isolated(&a.prop, &small, 60.0);
+        let final_v = check_isolated(&a.prop, &small, iso_to);
         let (small, fv, minimised) = match final_v {
             Some(fv) if fv.rule == v.rule => (small, fv, true),
             _ => (case.clone(), v.clone(), false),
@@ -1113,7 +1118,8 @@ pub fn replay_main(path: &str) -> i32 {
     };
     println!("replaying {} (expected: {})", path, rf.violation.rule);
     println!("ops: {}", ops_short(&rf.case.ops));
-    match check_isolated(&rf.property, &rf.case, 120.0) {
+    let to = if rf.violation.rule.starts_with("hang:") { 30.0 } else { 120.0 };
+    match check_isolated(&rf.property, &rf.case, to) {
         Some(v) => {
             println!("reproduced: {} :: {}", v.rule, v.detail);
             if v.rule == rf.violation.rule {
